@@ -305,6 +305,22 @@ def late_merge(n, seed):
     return A[np.ix_(p, p)]
 
 
+def late_merge_k(n, k, seed):
+    """k paths numbered in an interleaved way (node i belongs to path i % k); consecutive paths are joined
+    by their highest-numbered nodes, i.e. by the last cells of a row-major scan."""
+    rs = np.random.RandomState(seed)
+    A = np.zeros((n, n))
+    chains = [list(range(c, n, k)) for c in range(k)]
+    for ch in chains:
+        for a, b in zip(ch[:-1], ch[1:]):
+            A[a, b] = A[b, a] = 1
+    for c in range(k - 1):
+        if chains[c] and chains[c + 1] and rs.rand() < .8:
+            a, b = chains[c][-1], chains[c + 1][-1]
+            A[a, b] = A[b, a] = 1
+    return A
+
+
 NAMED = {
     'path': path, 'cycle': cycle, 'star': star, 'wheel': wheel, 'complete': complete, 'kab': kab,
     'circulant': circulant, 'hypercube': hypercube, 'grid': grid, 'prufer': prufer_tree,
@@ -312,6 +328,7 @@ NAMED = {
     'lollipop': lollipop, 'dcycle': dcycle, 'dcycle_chords': dcycle_chords, 'dag': dag,
     'tournament': tournament, 'two_blobs_dir': two_blobs_dir, 'oneway_bridge': oneway_bridge,
     'er_connected': er_connected, 'er_strong': er_strong, 'planted': planted, 'late_merge': late_merge,
+    'late_merge_k': late_merge_k,
 }
 
 
